@@ -9,7 +9,8 @@ RANGE  none missing: for every operator/modifier value, reference set and candid
 FILTER no extras: every yielded handle passed refset.test with the iterator's operator
 SELF   only Equals returns the reference itself: both directions exclude refset members
 ONCE   per-reference iterators need de-duplication
-DEDUP  Vec::dedup() is preceded by a total sort of the same vector"""
+DEDUP  Vec::dedup() is preceded by a total sort of the same vector
+IDXGUARD a membership-guarded insertion tests the container it inserts into (position index halves)"""
 import itertools
 import re
 from synq import Syn, walk, find, unparse, strip
@@ -311,6 +312,38 @@ def run(ctx):
         for b in [n for n in walk(fn.body) if n.get("k") == "block"]:
             scan(b)
     ctx.floor(r_dd, ndd, 15, "dedup() calls")
+
+    # ---------------- IDXGUARD (whole crate)
+    r_g = ctx.rule("C06.IDXGUARD", "a membership-guarded insertion tests the container it inserts into: `if !X.contains(v) { Y.push(v) }` requires X == Y (the two halves of the position index are maintained independently)")
+    ng = 0
+    for fn in syn.fns:
+        if not fn.body:
+            continue
+        for n in walk(fn.body):
+            if n.get("k") != "if":
+                continue
+            c = strip(n["cond"])
+            if not (c.get("k") == "unary" and c["op"] == "!"):
+                continue
+            c = strip(c["e"])
+            if not (c.get("k") == "mcall" and c["method"] == "contains" and strip(c["recv"]).get("k") == "field"):
+                continue
+            x = unparse(strip(c["recv"]), True)
+            pushes = []
+            for s_ in n["then"]["stmts"]:
+                e = s_.get("e") if s_["k"] == "exprstmt" else None
+                e = strip(e) if e else None
+                if e and e.get("k") == "mcall" and e["method"] in ("push", "push_back", "insert") and strip(e["recv"]).get("k") == "field":
+                    pushes.append((unparse(strip(e["recv"]), True), e))
+            if not pushes:
+                continue
+            ng += 1
+            key = "%s|%s" % (fn.qual, x)
+            r_g.hit(key, sample={"fn": fn.qual, "guard": x + ".contains", "inserts_into": [p_[0] for p_ in pushes]})
+            for y, e in pushes:
+                if y != x and y.rsplit(".", 1)[0] == x.rsplit(".", 1)[0]:
+                    ctx.report(r_g, key + "->" + y, "%s inserts into %s under the guard !%s.contains(..): the guard looks at a different container, so the entry is skipped whenever the other container happens to hold an equal element (and duplicates are not prevented)" % (fn.qual, y, x), fn.file, e["l"])
+    ctx.floor(r_g, ng, 4, "membership-guarded insertions")
 
 
 def split_and(c):
